@@ -140,7 +140,11 @@ def hasDupStr : List String → Bool
   | x :: xs => xs.contains x || hasDupStr xs
 
 /-- Python `str` values are modelled as character lists (`String.ofList` at the boundary) -/
-def notPrefix (neg : Bool) : List Char := if neg then "not ".toList else []
+def notSpC : List Char := "not ".toList
+def notParC : List Char := "not (".toList
+def orSep : List Char := " or ".toList
+def andSep : List Char := " and ".toList
+def notPrefix (neg : Bool) : List Char := if neg then notSpC else []
 
 def Cond.isConj : Cond → Bool
   | .conj _ => true
@@ -169,17 +173,17 @@ def printChars : Cond → List Char
       notPrefix neg ++ "minimum(".toList ++ (toString c).toList ++ ", [".toList
         ++ joinChars ", ".toList ((sortDedupStr opts).map String.toList) ++ "])".toList
   | .cds neg subs =>
-      let t := printJoin " or ".toList subs
+      let t := printJoin orSep subs
       -- D26 fix: a lone parenthesised operand keeps its parentheses (`cds(a)` is not valid)
       let t := if isSingleton subs && subs.all Cond.isGroup && !(t.head? == some '(') then '(' :: t ++ [')'] else t
       notPrefix neg ++ "cds(".toList ++ t ++ [')']
   | .group neg subs =>
-      let t := printJoin " or ".toList subs
+      let t := printJoin orSep subs
       if isSingleton subs && !(subs.all Cond.isConj) then
         -- D17 fix: a directly nested negation keeps its parentheses
-        if neg && "not ".toList.isPrefixOf t then "not (".toList ++ t ++ [')'] else notPrefix neg ++ t
+        if neg && notSpC.isPrefixOf t then notParC ++ t ++ [')'] else notPrefix neg ++ t
       else notPrefix neg ++ '(' :: t ++ [')']
-  | .conj subs => printJoin " and ".toList subs
+  | .conj subs => printJoin andSep subs
 def printJoin (sep : List Char) : List Cond → List Char
   | [] => []
   | [c] => printChars c
